@@ -52,9 +52,14 @@ pub fn run(case: &Value) -> Value {
         let src = srcdir.join(&relstr);
         if n >= 0 {
             std::fs::create_dir_all(src.parent().unwrap()).unwrap();
+            // source style: 0 = LF, 1 = CRLF, 2 = LF without a final newline (the last line is then unterminated)
+            let style = case["src_style"].as_u64().unwrap_or(0);
             let mut s = String::new();
             for i in 1..=n {
-                s.push_str(&format!("L{}\n", i));
+                s.push_str(&format!("L{}", i));
+                if !(style == 2 && i == n) {
+                    s.push_str(if style == 1 { "\r\n" } else { "\n" });
+                }
             }
             std::fs::write(&src, s).unwrap();
         }
